@@ -22,7 +22,7 @@
    (Proofs files), the correspondence instantiates it with [canon_sort] and compares
    edge / migration tables as canonically ordered row lists. *)
 From Coq Require Import List ZArith Bool Lia.
-From TskVerif Require Import Base.Common.
+From TskVerif Require Import Base.Common Gen.Generated.
 Import ListNotations.
 Open Scope Z_scope.
 
@@ -158,10 +158,15 @@ Definition delete_intervals (srt : tables -> tables) (ivs : list (Z * Z)) (t : t
   do neg <- negate_intervals 0 (t_L t) ivs; keep_intervals srt neg t.
 
 (* ------------------------------------------------------------------------- *)
-(* ltrim / rtrim / trim.  Two switches select the code as it exists (false) or the
+(* ltrim / rtrim / trim.  Three switches select the code as it exists (false) or the
    repaired variant (true):
-     md_fix    ltrim passes the edge / migration metadata columns to set_columns (F7)
-     cond_fix  _check_trim_conditions uses `or` as its message says (it uses `and`)  *)
+     emd       ltrim passes the edge metadata columns to self.edges.set_columns (F7)
+     gmd       ltrim passes the migration metadata columns to self.migrations.set_columns (F7)
+     cond_fix  _check_trim_conditions joins its tests with `or` as its message says (F14)
+   Which variant the source contains is re-extracted on every run (translator/facts_c11.py
+   -> Gen/Generated.v: C11_ltrim_passes_edge_metadata, C11_ltrim_passes_migration_metadata,
+   C11_trim_check_uses_or); the correspondence entry points ltrim_c / rtrim_c / trim_c
+   follow those facts. *)
 
 Definition check_trim_conditions (cond_fix : bool) (t : tables) : bool :=   (* true = raises ValueError *)
   let bad_mig :=
@@ -185,14 +190,14 @@ Definition shift_mig (keep_md : bool) (d : Z) (g : migration) : migration :=
       (if keep_md then g_md g else []).
 Definition shift_site (d : Z) (s : site) : site := mkS (s_pos s - d) (s_anc s) (s_md s).
 
-Definition ltrim_gen (md_fix cond_fix : bool) (t : tables) : res tables :=
+Definition ltrim_gen (emd gmd cond_fix : bool) (t : tables) : res tables :=
   if check_trim_conditions cond_fix t then Err 1 else
   let leftmost := np_min (map e_left (t_edges t)) in
   (* np.where(position < leftmost) *)
   do t1 <- delete_sites (where_false 0 (map (fun s => negb (s_pos s <? leftmost)) (t_sites t))) t;
-  Ok (mkT (t_L t1 - leftmost) (t_nodes t1) (map (shift_edge md_fix leftmost) (t_edges t1))
+  Ok (mkT (t_L t1 - leftmost) (t_nodes t1) (map (shift_edge emd leftmost) (t_edges t1))
           (map (shift_site leftmost) (t_sites t1)) (t_muts t1)
-          (map (shift_mig md_fix leftmost) (t_migs t1))).
+          (map (shift_mig gmd leftmost) (t_migs t1))).
 
 Definition rtrim_gen (cond_fix : bool) (t : tables) : res tables :=
   if check_trim_conditions cond_fix t then Err 1 else
@@ -200,17 +205,23 @@ Definition rtrim_gen (cond_fix : bool) (t : tables) : res tables :=
   do t1 <- delete_sites (where_false 0 (map (fun s => negb (s_pos s >=? rightmost)) (t_sites t))) t;
   Ok (mkT rightmost (t_nodes t1) (t_edges t1) (t_sites t1) (t_muts t1) (t_migs t1)).
 
-Definition trim_gen (md_fix cond_fix : bool) (t : tables) : res tables :=
-  do t1 <- rtrim_gen cond_fix t; ltrim_gen md_fix cond_fix t1.
+Definition trim_gen (emd gmd cond_fix : bool) (t : tables) : res tables :=
+  do t1 <- rtrim_gen cond_fix t; ltrim_gen emd gmd cond_fix t1.
 
 (* the code as it exists at the pinned commit *)
-Definition ltrim := ltrim_gen false false.
+Definition ltrim := ltrim_gen false false false.
 Definition rtrim := rtrim_gen false.
-Definition trim := trim_gen false false.
+Definition trim := trim_gen false false false.
 (* the repaired variant (the one [trim_shift] is proved for) *)
-Definition ltrim_repaired := ltrim_gen true true.
+Definition ltrim_repaired := ltrim_gen true true true.
 Definition rtrim_repaired := rtrim_gen true.
-Definition trim_repaired := trim_gen true true.
+Definition trim_repaired := trim_gen true true true.
+(* the variant the source contains right now (regenerated facts) *)
+Definition ltrim_current :=
+  ltrim_gen C11_ltrim_passes_edge_metadata C11_ltrim_passes_migration_metadata C11_trim_check_uses_or.
+Definition rtrim_current := rtrim_gen C11_trim_check_uses_or.
+Definition trim_current :=
+  trim_gen C11_ltrim_passes_edge_metadata C11_ltrim_passes_migration_metadata C11_trim_check_uses_or.
 
 (* ------------------------------------------------------------------------- *)
 (* tsk_table_collection_delete_older                                           *)
@@ -365,9 +376,9 @@ Definition res_tables_eqb (a b : res tables) : bool :=
 Definition keep_intervals_c := keep_intervals canon_sort.
 Definition delete_intervals_c := delete_intervals canon_sort.
 Definition delete_sites_c := delete_sites.
-Definition ltrim_c := ltrim.
-Definition rtrim_c := rtrim.
-Definition trim_c := trim.
+Definition ltrim_c := ltrim_current.
+Definition rtrim_c := rtrim_current.
+Definition trim_c := trim_current.
 Definition delete_older_c := delete_older.
 Definition split_edges_c := split_edges canon_sort.
 Definition decapitate_c := decapitate canon_sort.
